@@ -193,23 +193,7 @@ pub fn run(run: &mut Run) {
     }
     // more than 65536 layers (layer ids wider than 16 bits), cels on a few low and a few high layers, 2 frames
     {
-        let r = check_guarded(|| {
-            let n = 65540usize;
-            let mut s = crate::model::Sprite::empty(2, 1, crate::model::Fmt::Rgba);
-            s.frames.push(crate::model::Frame { duration: 10, cels: vec![] });
-            for i in 0..n {
-                s.layers.push(crate::model::Layer { flags: 1, kind: crate::model::LayerKind::Image, level: 0, blend: 0, opacity: 255, name: if i % 16384 == 1 { format!("l{}", i) } else { String::new() }, user_data: None });
-            }
-            for (fi, layers) in [(0usize, vec![1u16, 3, 65534]), (1, vec![2, 65535])] {
-                for l in layers {
-                    s.frames[fi].cels.push(crate::model::Cel { layer: l, x: (l % 2) as i16, y: 0, opacity: 255, content: crate::model::CelContent::Image { w: 1, h: 1, pixels: vec![(l % 251) as u8 + 1, 9, 9, 255] }, user_data: None });
-                }
-            }
-            let enc = encode(&s, &crate::encode::Plan::plain());
-            let f = AsepriteFile::read(&enc.bytes[..]).map_err(|e| Failure::new("load-error", format!("sprite with 65540 layers failed to load: {}", e)))?;
-            let (pairs, _) = check_file(&f)?;
-            Ok(Outcome::new(true, 65540).label("layers>65536").count("cel_coordinates_checked", pairs))
-        });
+        let r = check_guarded(check_wide);
         run.direct(|| json!({"wide_layers": 65540}), r);
     }
     let (lanes, cases) = if run.thorough() { (16, 20000) } else { (16, 4000) };
@@ -218,7 +202,28 @@ pub fn run(run: &mut Run) {
     crate::fuzzstage::fuzz_tapes(run, 1200, 120);
 }
 
+fn check_wide() -> CheckResult {
+    let n = 65540usize;
+    let mut s = crate::model::Sprite::empty(2, 1, crate::model::Fmt::Rgba);
+    s.frames.push(crate::model::Frame { duration: 10, cels: vec![] });
+    for i in 0..n {
+        s.layers.push(crate::model::Layer { flags: 1, kind: crate::model::LayerKind::Image, level: 0, blend: 0, opacity: 255, name: if i % 16384 == 1 { format!("l{}", i) } else { String::new() }, user_data: None });
+    }
+    for (fi, layers) in [(0usize, vec![1u16, 3, 65534]), (1, vec![2, 65535])] {
+        for l in layers {
+            s.frames[fi].cels.push(crate::model::Cel { layer: l, x: (l % 2) as i16, y: 0, opacity: 255, content: crate::model::CelContent::Image { w: 1, h: 1, pixels: vec![(l % 251) as u8 + 1, 9, 9, 255] }, user_data: None });
+        }
+    }
+    let enc = encode(&s, &crate::encode::Plan::plain());
+    let f = AsepriteFile::read(&enc.bytes[..]).map_err(|e| Failure::new("load-error", format!("sprite with 65540 layers failed to load: {}", e)))?;
+    let (pairs, _) = check_file(&f)?;
+    Ok(Outcome::new(true, 65540).label("layers>65536").count("cel_coordinates_checked", pairs))
+}
+
 pub fn replay(case: &serde_json::Value) -> CheckResult {
+    if case.get("wide_layers").is_some() {
+        return check_guarded(check_wide);
+    }
     if let Some(g) = case.get("golden").and_then(|g| g.as_str()) {
         let b = std::fs::read(format!("/repo/tests/data/{}", g)).map_err(|e| Failure::new("bad-replay", e.to_string()))?;
         return check_guarded(|| {
